@@ -2,6 +2,7 @@ import CorsVerif.Proofs.Pattern
 import CorsVerif.Spec.Fetch
 import CorsVerif.Spec.Denote
 import CorsVerif.Proofs.Accept
+import CorsVerif.Proofs.RoundTrip
 /-
   C13 — Origin-pattern grammar: documented forms accepted, documented non-forms rejected.
 
@@ -18,9 +19,15 @@ import CorsVerif.Proofs.Accept
       the `file` scheme, a missing `://`, the scheme's default port, port 0, https with an IP host;
     * shape facts of every accepted pattern: non-empty lower-case scheme of at most 64 bytes,
       port absent / 1-65535 / wildcard, non-empty host value, wildcard base of at most 251 bytes.
-  Not proved: acceptance of IP-literal and Punycode hosts (their verdicts come from the netip and
-  idna libraries, modelled as oracles) and the remaining single-defect rejections; these rest on the
-  `lex` correspondence suite with the grammar judge.
+    * C13_accept_self: a documented wildcard-free pattern, presented verbatim as an Origin, parses
+      and is denoted by the pattern — also at every length maximum at once;
+    * C13_accepted_form / C13_reject_bad_host_byte: every accepted bracket-free pattern is literally
+      `scheme://host` + nothing / `:*` / `:`canonical-decimal(1..65535) with host bytes from the
+      documented alphabet, so upper-case or non-ASCII hosts, userinfo, path, query, fragment,
+      whitespace and empty / zero / over-range / over-long / leading-zero ports are rejected.
+  Not proved: acceptance of IP-literal and Punycode hosts and the IP-literal defects (zoned,
+  IPv4-mapped, non-canonical): their verdicts come from the netip and idna libraries, modelled as
+  oracles; they rest on the `lex` correspondence suite with the grammar judge.
 -/
 namespace Cors
 open Gen Pat
@@ -277,6 +284,125 @@ theorem C13_accept (ext : Ext) (d : DocPattern) (h : d.ok = true) :
     rw [hndef]
     simp
 
+open Spec Accept in
+/-- **C13 (self-match of documented patterns, at every length maximum).** A documented pattern
+without wildcards, presented verbatim as an Origin, is parsed by the request-side lexer into an
+origin that the pattern denotes — in particular at all maxima at once (64-byte scheme, 253-byte
+domain, trailing dot, 5-digit port: 327 bytes, the request-side cap). -/
+theorem C13_accept_self (ext : Ext) (d : DocPattern) (h : d.ok = true) (hw : d.wildcard = false) (hany : d.port ≠ .any) :
+    ∃ p o, parsePattern ext d.render = .ok p ∧ Lex.parse d.render = some o ∧ Spec.denotes p o = true := by
+  have hacc := C13_accept ext d h
+  have hkind : (if d.wildcard = true then Kind.subdomains else Kind.domain) ≠ Kind.subdomains := by rw [hw]; simp
+  have hport : (match d.port with | .absent => 0 | .num ds => portValue ds | .any => Facts.origins_wildcardPort) ≠ Facts.origins_wildcardPort := by
+    simp only [DocPattern.ok, Bool.and_eq_true, Bool.not_eq_true', Bool.or_eq_true, decide_eq_true_eq] at h
+    obtain ⟨⟨⟨⟨_, _⟩, hpo⟩, _⟩, _⟩ := h
+    cases hpt : d.port with
+    | absent => simp [Facts.origins_wildcardPort]
+    | any => exact absurd hpt hany
+    | num ds =>
+      rw [hpt] at hpo
+      unfold docPortOK at hpo
+      simp only [Bool.and_eq_true, decide_eq_true_eq] at hpo
+      simp only [Facts.origins_wildcardPort]
+      omega
+  -- the length bound: scheme ≤ 64, `://`, host ≤ 254, port string ≤ 6
+  have hlen : d.render.length ≤ Facts.origins_Parse_maxOriginLen := by
+    simp only [DocPattern.ok, Bool.and_eq_true, Bool.not_eq_true', Bool.or_eq_true, decide_eq_true_eq] at h
+    obtain ⟨⟨⟨⟨hs, hd⟩, hpo⟩, _⟩, _⟩ := h
+    have hL := labels_of_doc hd
+    have h1 : d.scheme.length ≤ 64 := by
+      unfold docScheme at hs
+      cases hsc : d.scheme with
+      | nil => rw [hsc] at hs; simp at hs
+      | cons c t =>
+        rw [hsc] at hs
+        simp only [Bool.and_eq_true, decide_eq_true_eq] at hs
+        exact hs.1.2
+    have h2 : d.host.length ≤ 254 := by
+      unfold DocPattern.host
+      have := hL.len
+      cases d.trailingDot <;> simp <;> omega
+    have h3 : d.portString.length ≤ 6 := by
+      unfold DocPattern.portString
+      cases hpt : d.port with
+      | absent => simp
+      | any => simp
+      | num ds =>
+        rw [hpt] at hpo
+        unfold docPortOK at hpo
+        simp only [Bool.and_eq_true, decide_eq_true_eq] at hpo
+        simp only [List.length_cons]
+        omega
+    unfold DocPattern.render DocPattern.hostPattern
+    rw [hw]
+    have hsep : (Spec.b "://").length = 3 := by decide
+    simp only [Bool.false_eq_true, if_false, List.nil_append, List.length_append, hsep, Facts.origins_Parse_maxOriginLen]
+    omega
+  obtain ⟨o, ho, hd⟩ := C13_self ext d.render _ hacc hkind hport hlen
+  exact ⟨_, o, hacc, ho, hd⟩
+
+/-! ### Documented non-forms are rejected -/
+
+open RoundTrip in
+/-- **C13 (the form of every accepted pattern).** An accepted pattern that contains no `[` is
+literally `scheme://host` followed by nothing, `:*`, or `:` and the canonical decimal of a port in
+1..65535; every byte of the host is `*`, `.`, a digit or a label byte (a-z, 0-9, `-`, `_` by
+`C13_alphabets`).  Hence every string with an upper-case or non-ASCII host byte, userinfo, a path,
+query or fragment, whitespace, or an empty / zero / over-range / over-long / leading-zero port is
+rejected. -/
+theorem C13_accepted_form (ext : Ext) (s : Bytes) (p : Pattern) (h : parsePattern ext s = .ok p) (hnb : (91 : Nat) ∉ s) :
+    ∃ portStr, s = p.scheme ++ Facts.origins_schemeHostSep ++ p.value ++ portStr ∧
+      (∀ c ∈ p.value, c = 42 ∨ c = Facts.origins_labelSep ∨ Lex.isDigit c = true ∨ Lex.isASCIILabelByte c = true) ∧
+      (portStr = [] ∨ portStr = [58, 42] ∨ ∃ n, 1 ≤ n ∧ n ≤ 65535 ∧ portStr = 58 :: Bytes.itoa n) := by
+  have inv := parsePattern_inv h
+  obtain ⟨rest, hps, rest2, hcp, rest3, hhp, hport⟩ := inv.scheme
+  have hs1 := (parseScheme_append hps).1
+  have hs2 := cutPrefix_some hcp
+  rcases parseHostPattern_split hhp with ⟨hstr, _, hcl⟩ | ⟨_, hstr⟩
+  · refine ⟨rest3, by rw [hs1, hs2, hstr]; simp, hcl, ?_⟩
+    rcases hport with ⟨h3, _⟩ | ⟨rest4, hc4, hpp⟩
+    · exact Or.inl h3
+    · have h4 := cutPrefix_some hc4
+      rcases parsePortPattern_inv hpp with ⟨hr, _⟩ | ⟨hr, hp1, hp2⟩
+      · right; left; rw [h4, hr]; rfl
+      · right; right; exact ⟨p.port, hp1, hp2, by rw [h4, hr]; rfl⟩
+  · exfalso
+    apply hnb
+    rw [hs1, hs2, hstr]
+    simp
+
+/-- A byte that can occur in no accepted bracket-free pattern after the scheme: upper-case
+letters, `@`, `/` (beyond `://`), `?`, `#`, space, tab, and every byte above 127. -/
+def badHostByte (c : Nat) : Bool :=
+  (65 ≤ c && c ≤ 90) || c == 64 || c == 47 || c == 63 || c == 35 || c == 32 || c == 9 || 128 ≤ c
+
+theorem badHostByte_not_class : ∀ c, c < 128 → badHostByte c = true →
+    ¬ (c = 42 ∨ c = Facts.origins_labelSep ∨ Lex.isDigit c = true ∨ Lex.isASCIILabelByte c = true) := by decide
+
+open RoundTrip in
+/-- **C13 (rejection).** A bracket-free string whose host part contains an upper-case letter, a
+userinfo `@`, a `/`, `?`, `#`, whitespace or a non-ASCII byte is not accepted. -/
+theorem C13_reject_bad_host_byte (ext : Ext) (s : Bytes) (p : Pattern) (h : parsePattern ext s = .ok p) (hnb : (91 : Nat) ∉ s) :
+    ∀ c ∈ p.value, badHostByte c = false := by
+  obtain ⟨_, _, hcl, _⟩ := C13_accepted_form ext s p h hnb
+  intro c hc
+  cases hb : badHostByte c with
+  | false => rfl
+  | true =>
+    exfalso
+    by_cases hlt : c < 128
+    · exact badHostByte_not_class c hlt hb (hcl c hc)
+    · -- no class contains a byte above 127
+      rcases hcl c hc with h0 | h0 | h0 | h0
+      · omega
+      · simp only [Facts.origins_labelSep] at h0; omega
+      · have := isDigit_lt h0; omega
+      · have : c < 128 := by
+          simp only [Lex.isASCIILabelByte, asciiContains, Facts.origins_asciiLabelBytes, List.contains_iff_mem, List.mem_cons,
+            List.mem_nil_iff, or_false] at h0
+          omega
+        omega
+
 /-- Non-vacuity of `C13_accept`: documented patterns at work, including one with every part. -/
 def exDoc : Spec.DocPattern where
   scheme := Spec.b "chrome-extension+v1.0"
@@ -295,6 +421,9 @@ example : (parsePattern ext0 (Spec.b "https://example.com:8080")).toOption.map (
 example : (Lex.parse (Spec.b "https://example.com:8080")).map (·.port) = some 8080 := by decide
 
 #print axioms C13_accept
+#print axioms C13_accept_self
+#print axioms C13_accepted_form
+#print axioms C13_reject_bad_host_byte
 #print axioms C13_constants
 #print axioms C13_alphabets
 #print axioms C13_self
